@@ -4,6 +4,7 @@
 -/
 import OlricModel.Props.C11
 import OlricModel.Proofs.KVFull
+import OlricModel.Generated.Facts
 namespace Olric.C20
 open Olric KV Table
 
@@ -181,6 +182,12 @@ theorem C20_compaction_reaches_threshold (ord : KV → List Nat) (now : Nat → 
   have h := e t ht
   simp only [needsCompaction, decide_eq_false_iff_not, Nat.not_le] at h
   exact h
+
+/-- **Tie to the source (regenerated on every run).**  The member-level worker (internal/dmap/compaction.go)
+    calls `Compaction` until done on every DMap fragment of the primary AND of the backup partitions: the loop the
+    theorem `C20_compaction_reaches_threshold` is about, for the copies on both sides. -/
+theorem facts_tie : Facts.compaction_worker_runs_primary_and_backup_until_done = true ∧ Facts.compaction_skips_readwrite = true := by
+  decide
 
 /-! Non-vacuity -/
 example : ∀ t ∈ (C11.run (KV.fork 256 1000) C11.demoOps).1.newestFirst,
